@@ -83,6 +83,10 @@ def run(res, tier, seed):
     build_rva()
     n = 400 if tier == "quick" else 8000
     srcs = [restrict(hostile(rng)) for _ in range(n)] + [c for c in CORPUS if "jal t0,B" not in c]
+    # arrangements of valid tokens at the edge: labels attached to no instruction named by every
+    # instruction form, functions without a return, returns outside functions, empty inputs
+    from gen import labels as labelshapes
+    srcs += [restrict(t) for t, shape in labelshapes.shapes(rng) if not shape.endswith(":include")]
     # Inputs on which the liveness iteration *as documented* has no reachable fixed point are the
     # recorded findings F-12 / F-31 (their witnesses are replayed separately at the end). The Lean
     # model of the algorithm decides membership: it exhausts its sweep bound (100 * (n + 2) sweeps)
